@@ -166,10 +166,11 @@ func oneCase(c *vk.Ctx, i int, r *rand.Rand, p *sem.Prepared, contextual []*open
 								// the weighted-graph engine denies a userset subject that the default engine (and the
 								// reference) grants, without the detector noticing: listed finding, see known_findings.json
 								uo, ur := ref.UserParts(subj)
+								f = "C03-v2-userset-subject-silent-divergence"
 								if sem.V2UsersetSubjectShortcut(p.Ref, typeOf(n[0]), n[1], typeOf(uo), ur) {
-									f = "C03-v2-userset-subject-silent-divergence"
+									c.Count("userset_subject_denials_on_shortcut_shapes", 1)
 								} else {
-									c.Count("userset_subject_denials_outside_the_listed_shapes", 1)
+									c.Count("userset_subject_denials_outside_the_shortcut_shapes", 1)
 								}
 							}
 							key := fmt.Sprintf("silent-diff|%s|%s|%s", kind, ref.Shape(p.Ref.Rewrite(typeOf(n[0]), n[1])), k)
